@@ -439,13 +439,31 @@ impl OpSource for GenOps {
             } else {
                 self.gen_c.as_mut()
             };
+            let mut own: Vec<(String, &'static str)> = vec![];
             if let Some(o) = other {
                 for d in defs {
+                    if d.1 == "unit" {
+                        // identifiers DERIVED from the sibling's definition (prefix + unit name or
+                        // alias) are ordinary free names on this side: define them as variables,
+                        // while the sibling goes on using them as prefixed units (seeded S07f)
+                        let derived = if self.rng.chance(0.5) { format!("kilo{}", d.0) } else { format!("m{}", d.0) };
+                        o.recent_failed.push((derived, "variable"));
+                        own.push(d.clone());
+                    }
                     o.recent_failed.push(d);
                 }
-                if o.recent_failed.len() > 8 {
-                    let cut = o.recent_failed.len() - 8;
+                if o.recent_failed.len() > 12 {
+                    let cut = o.recent_failed.len() - 12;
                     o.recent_failed.drain(..cut);
+                }
+            }
+            // the defining side keeps using what it defined (also in prefixed spellings)
+            let me = if session == "C" { self.gen_c.as_mut() } else { Some(&mut self.gen_p) };
+            if let Some(g) = me {
+                for d in own {
+                    if self.rng.chance(0.6) {
+                        g.recent_failed.push(d);
+                    }
                 }
             }
         }
